@@ -18,10 +18,14 @@ CHECKS = {
              "satisfies the decay ODE system + initial condition and is its unique solution. C01_nuclide_set: the index set written "
              "out is exactly the inputs and their closure under the progeny lists. C01_oracle_sound: the rational interval oracle "
              "encloses that exact solution for every input; float_data_contribution: the stored doubles contribute <= 5e-12 of the "
-             "initial atoms. The rounding part of the 1e-11 bound, order, finiteness and zero activity of stable nuclides are "
-             "checked per generated input against the proved oracle (named _partial in the evidence).",
+             "initial atoms; C01_forward_error_ancestors: under the standard floating-point model (stated as hypotheses, derived "
+             "from per-operation error 2^-53 by C01_fp_exp / C01_fp_product) the computed amount is within 1e-11 of the ancestors' "
+             "atoms of the exact solution (kernel obligation wround). AllDatasets.*: the same exactness / nuclide-set / oracle "
+             "theorems for every dataset accepted by the executable checker wellFormedB, which the driver evaluates on each "
+             "synthetic dataset loaded through load_dataset(dir_path). Order, finiteness, zero activity of stable nuclides and "
+             "conformance of NumPy/SciPy to the floating-point model are checked per generated input against the proved oracle.",
         ref="§4 C01", technique=PROOF_DECAY,
-        note=NOTE + "IEEE-754 behaviour of NumPy/SciPy assumed; forward-error bound is per-input, not a theorem; shipped dataset only."),
+        note=NOTE + "IEEE-754 standard model assumed for NumPy/SciPy (hypothesis of the error theorem); synthetic datasets are parts of the shipped graph with new numbers."),
     "C02": dict(
         text="Theorem C02_symbolic (ODE + initial condition hold identically in t, uniqueness) for the exact data; symbolic-t "
              "results of the real InventoryHP compared coefficient-by-coefficient as exact rationals with the model, exponents to "
@@ -33,7 +37,8 @@ CHECKS = {
         text="Theorems C03_integral (cumulative decays = integral of activity), C03_atom_balance, C03_stable for the shipped "
              "dataset, all N(0), all t; C03_oracle_sound: the interval oracle cumEncl encloses the exact integral for every input; "
              "real cumulative_decays of both classes compared with that oracle, keys = radioactive closure, atom balance "
-             "recomputed from real outputs.",
+             "recomputed from real outputs; the same theorems for every dataset accepted by wellFormedB (AllDatasets.*) with "
+             "synthetic datasets compared the same way.",
         ref="§4 C03", technique=PROOF_DECAY, note=NOTE + "Rounding bounds per input, not proved."),
     "C04": dict(
         text="Every statement of the property is a kernel-evaluated decision (decide +kernel, no axioms beyond the standard three) "
